@@ -68,11 +68,31 @@ def make_array(i, dtype, layout):
     return a
 
 
-def make_rasters(nr, dtype, layout, backend):
+VARIANTS = ["res_list_negative_y", "res_ndarray", "no_attrs", "coords_of_other_rasters_off_by_1ulp",
+            "coords_of_other_rasters_float32_rounded", "extra_2d_coordinate"]
+
+
+def make_rasters(nr, dtype, layout, backend, variant=None):
     import xarray as xr
     out = []
     ys = 10.0 + 2.0 * np.arange(H)[::-1]
     xs = -3.0 + 0.5 * np.arange(W)
+    if variant is not None:
+        rs = make_rasters(nr, dtype, layout, backend)
+        for i, r in enumerate(rs):
+            if variant == "res_list_negative_y":
+                r.attrs["res"] = [0.5, -2.0]          # a mutable attribute value; north-up rasters carry a negative y resolution
+            elif variant == "res_ndarray":
+                r.attrs["res"] = np.array([0.5, 2.0])
+            elif variant == "no_attrs":
+                r.attrs.clear()
+            elif variant == "coords_of_other_rasters_off_by_1ulp" and i > 0:
+                rs[i] = r.assign_coords(y=np.nextafter(ys, np.inf), x=np.nextafter(xs, -np.inf))
+            elif variant == "coords_of_other_rasters_float32_rounded" and i > 0:
+                rs[i] = r.assign_coords(y=(ys + 1e-7).astype(np.float32).astype(np.float64), x=(xs + 1e-7).astype(np.float32).astype(np.float64))
+            elif variant == "extra_2d_coordinate":
+                rs[i] = r.assign_coords(lon2d=(("y", "x"), np.add.outer(ys, xs)))
+        return rs
     for i in range(nr):
         a = make_array(i, dtype, layout)
         data = a
@@ -375,6 +395,47 @@ def _out_digestable(mat):
     return repr(type(mat))
 
 
+class VariantSpace(_Base):
+    """attribute / coordinate variants of the inputs: mutable `res` values (list, ndarray, negative y), no attrs, other rasters
+    whose coordinates are close to but not identical with the first raster's, an extra 2-D coordinate."""
+
+    def __init__(self, tier, names):
+        self.names = names
+        self.radices = [len(names), len(BACKENDS), len(VARIANTS)]
+        self.name = "input_attrs_and_coords_variants"
+        self.size = int(np.prod(self.radices))
+        self.grain = len(BACKENDS) * len(VARIANTS)
+        self.weight = 2.0
+
+    def describe(self, rank):
+        fi, bi, vi = unrank_product(rank, self.radices)
+        return {"function": self.names[fi], "backend": BACKENDS[bi], "variant": VARIANTS[vi], "dtype": "float64"}
+
+    def run(self, lo, hi, out):
+        for rank in range(lo, hi):
+            fi, bi, vi = unrank_product(rank, self.radices)
+            fn = self.by_name[self.names[fi]]
+            backend, variant = BACKENDS[bi], VARIANTS[vi]
+            if backend == "dask" and not fn.dask:
+                out.case(outcome=None, nontrivial=False, calls=0)
+                continue
+            if variant.startswith("coords_of_other") and fn.nr < 2:
+                out.case(outcome=None, nontrivial=False, calls=0)
+                continue
+            rasters = make_rasters(fn.nr, "float64", "C", backend, variant)
+            bases = [r.data if backend == "numpy" else None for r in rasters]
+            status, problems, mat = observe(fn, rasters, bases)
+            key = "c10|variant|%s|%s|%s" % (fn.name, backend, variant)
+            out.case(outcome=(fn.name, backend, variant, status, _out_digestable(mat)), nontrivial=status == "ok", calls=1)
+            out.ok()
+            out.count("status:" + status.split(":")[0])
+            for kind, msg in problems:
+                out.violation(rank, key + "|" + kind, "%s [%s, %s]: %s" % (fn.name, backend, variant, msg), case=self.describe(rank),
+                              sig="c10|%s|%s|%s|%s" % (fn.name, backend, variant, kind))
+            if out.want_sample() and status == "ok" and not problems:
+                out.sample(self.describe(rank))
+
+
 class ChainSpace(_Base):
     """depth-2 histories f -> g: g is fed f's output (plus fresh rasters for its other arguments)."""
 
@@ -452,6 +513,7 @@ def build(tier):
     gs = [n for n in names if n not in ("generate_terrain",)] if tier == "thorough" else [n for n in names if n not in heavy]
     sp = [SingleCallSpace(tier, light, "light"), SingleCallSpace(tier, heavy[:3], "proximity_family", weight=30.0),
           SingleCallSpace(tier, heavy[3:], "viewshed_terrain", weight=40.0),
+          VariantSpace(tier, [n for n in names if n != "generate_terrain"] if tier == "thorough" else light),
           ChainSpace(tier, raster_out, gs, ["numpy"] if tier == "quick" else ["numpy", "dask"],
                      ["float64"] if tier == "quick" else ["float64", "float32", "int32"])]
     sp[1].grain = 8
